@@ -574,3 +574,44 @@ func zzH_C15s() {
 	t.Close()
 	vReach("end")
 }
+
+// zzH_TRdown: the server of an address with pooled connections goes down and stays down: the first
+// call per pooled connection may still fail with ErrShutdown (the dead connection), every later call
+// fails with ErrDial, for every call form.
+func zzH_TRdown() {
+	z := &zzWorld{up: map[string]bool{"a": true, "b": true}, dials: map[string]int{}}
+	lim := [][2]int{{1, 1}, {2, 2}}[vChoose("limits", 2)]
+	t := zzNewTransport(z, lim[0], lim[1])
+	vSetTimerBudget(vParam("tr.ticks", 1))
+	arg := []byte{0x31}
+	for i := 0; i < lim[0]; i++ {
+		var r []byte
+		vAssert(t.Call("a", "S.Echo", &arg, &r) == nil, "first-call-ok")
+	}
+	vQuiesce()
+	pooled := z.live("a")
+	z.kill("a")
+	vQuiesce()
+	via := vChoose("via", 3)
+	shutdowns := 0
+	for i := 0; i < pooled+2; i++ {
+		var r []byte
+		var err error
+		switch via {
+		case 0:
+			err = t.Call("a", "S.Echo", &arg, &r)
+		case 1:
+			err = t.Ping("a")
+		case 2:
+			err = t.CallWithContext(&zzCtx{done: make(chan struct{})}, "a", "S.Echo", &arg, &r)
+		}
+		vAssert(err == ErrShutdown || err == ErrDial, "down-fails-with-dial-or-shutdown")
+		if err == ErrShutdown {
+			shutdowns++
+			vAssert(shutdowns <= pooled, "unreachable-server-fails-with-ErrDial-after-one-failure-per-pooled-conn")
+		}
+		vQuiesce()
+	}
+	t.Close()
+	vReach("end")
+}
